@@ -229,7 +229,11 @@ pub fn conclude(ctx: &Ctx, check: &str, stats: Stats, mut ev: Evidence, started:
         if !seen.insert((v.property.clone(), v.signature.clone())) {
             continue;
         }
-        let path = write_replay(check, v, case);
+        // a libFuzzer finding's replay file is the saved input itself
+        let path = match case.get("artifact").and_then(|a| a.as_str()) {
+            Some(a) if case.get("fuzz_target").is_some() => a.to_string(),
+            _ => write_replay(check, v, case),
+        };
         println!("VIOLATION property={} replay={}", v.property, path);
         println!("  signature: {}", v.signature);
         println!("  {}", v.message);
